@@ -2427,6 +2427,26 @@ func ruleEdgeSentCounted(c *Ctx) {
 						counted = true
 					}
 				}
+				// ... and it is the path of a child the client HAS: where one child is counted directly (not in a loop over
+				// several), the send lies behind that child being sent (state == stateSent) — ready is not enough: a child
+				// that is loaded but was never delivered (an error placeholder, a model kept alive by a loading parent)
+				// would be referenced without data
+				if counted {
+					direct := false
+					for _, i := range incs {
+						if dominates(i, in) {
+							direct = true
+						}
+					}
+					if direct {
+						fState := p.Field("server.Subscription.state")
+						kSent := p.ConstInt("server.stateSent", -1)
+						isSent := fieldCmpGuard(fState, 8, func(v int64) bool { return v == kSent })
+						c.inst(1)
+						c.check(p.guardedBy(in, isSent) != nil, fnName(g), "the immediate hand-over of an add event is taken only for a child the client already has", p.InstrPos(in), "behind state == stateSent of the referenced subscription",
+							"the event is sent at once on a path that has not established that the referenced resource was delivered: a child that is merely ready is referenced without its data or error placeholder")
+					}
+				}
 				c.check(counted, fnName(g), "an event sent at once for a reference to a resource the client already has counts the reference as sent first", p.InstrPos(in), "indirectsent++ of the referenced subscription(s) precedes the send",
 					"the event is sent on a path that added a reference without counting it in the child's indirectsent: removing the reference later drives the count negative and the release of a direct subscription of that child is skipped")
 			}
@@ -4415,5 +4435,439 @@ func ruleDecodedAsSent(c *Ctx) {
 	}
 	if n == 0 {
 		c.viol("codec", "a decoder validates the message, it does not rewrite it", "-", "no decoder found: anchor lost")
+	}
+}
+
+// ---------------------------------------------------------------------------
+// Round 15.
+
+// DOM/query-events-all (C13): every event of a query answer is handed to the
+// resource: the loop over the answered events is left only when the list is
+// exhausted — no break, no return inside.
+func ruleQueryEventsAll(c *Ctx) {
+	p := c.P
+	fn := p.Fn("(*rescache.EventSubscription).handleQueryEvent")
+	fEvents := p.Field("codec.EventQueryResult.Events")
+	if fn == nil || fEvents == nil {
+		c.undecided("(*rescache.EventSubscription).handleQueryEvent", "anchor", "-", "not found")
+		return
+	}
+	n := 0
+	for _, g := range p.withNewHelpers(fn) {
+		done := map[*ssa.BasicBlock]bool{}
+		for _, in := range instrsOf(g) {
+			call, ok := in.(ssa.CallInstruction)
+			if !ok {
+				continue
+			}
+			if m := calleeFunc(call.Common()); m == nil || m.Name() != "handleEvent" {
+				continue
+			}
+			hb := innermostLoopHeader(in.Block())
+			if hb == nil || done[hb] {
+				continue
+			}
+			body := loopBody(hb)
+			// the loop walks the events of the answer
+			walks := false
+			for b := range body {
+				for _, in2 := range b.Instrs {
+					switch y := in2.(type) {
+					case *ssa.IndexAddr:
+						if f, _ := fieldLoad(y.X); f == fEvents {
+							walks = true
+						}
+					case *ssa.Index:
+						if f, _ := fieldLoad(y.X); f == fEvents {
+							walks = true
+						}
+					case *ssa.Range:
+						if f, _ := fieldLoad(y.X); f == fEvents {
+							walks = true
+						}
+					}
+				}
+			}
+			if !walks {
+				continue
+			}
+			done[hb] = true
+			n++
+			c.inst(1)
+			bad := ""
+			for b := range body {
+				if b == hb {
+					continue
+				}
+				for _, s2 := range b.Succs {
+					if !body[s2] {
+						bad = "the loop over the answered events is left from inside (" + p.InstrPos(b.Instrs[len(b.Instrs)-1]) + "): the events behind that point are never applied or sent"
+					}
+				}
+				if len(b.Instrs) > 0 {
+					if _, isRet := b.Instrs[len(b.Instrs)-1].(*ssa.Return); isRet {
+						bad = "the loop over the answered events returns from inside: the events behind that point are never applied or sent"
+					}
+				}
+			}
+			c.check(bad == "", fnName(g), "every event of a query answer is handed to the resource", p.InstrPos(in), "the loop ends only when the list is exhausted", bad)
+		}
+	}
+	if n == 0 {
+		c.note("no loop over the events of a query answer hands them on directly")
+	}
+}
+
+// WHO/origin-header (C17): the Origin header of a request is what the allow-list
+// is checked against; nothing in the gateway removes or rewrites it before that
+// check (no Header.Del/Set/Add with the key Origin, no delete on the header map).
+func ruleOriginHeader(c *Ctx) {
+	p := c.P
+	n := 0
+	for _, fn := range p.Repo {
+		if !inScopePkgs(fn, "server") {
+			continue
+		}
+		for _, call := range callsIn(fn) {
+			m := calleeFunc(call.Common())
+			args := callArgs(call.Common())
+			key := ""
+			if m != nil && m.Pkg() != nil && (m.Pkg().Path() == "net/http" || m.Pkg().Path() == "net/textproto") && (m.Name() == "Del" || m.Name() == "Set" || m.Name() == "Add") && len(args) >= 2 {
+				key, _ = constString(args[1])
+			}
+			if b, ok := call.Common().Value.(*ssa.Builtin); ok && b.Name() == "delete" && len(args) == 2 {
+				key, _ = constString(stripConv(args[1]))
+			}
+			if strings.EqualFold(key, "Origin") {
+				n++
+				c.viol(fnName(fn), "the Origin header of a request is not removed or rewritten inside the gateway", p.InstrPos(call), "the request's Origin header is changed before the allow-list is consulted: an origin that is not listed is served as if the request had none")
+			}
+		}
+	}
+	c.inst(1)
+	if n == 0 {
+		c.ok("server", "the Origin header of a request is not removed or rewritten inside the gateway", "-", "no Del/Set/Add/delete with the key Origin")
+	}
+}
+
+// PROV/reset-throttle-config (C19): the limit of the reset throttle is the
+// configured resetThrottle and nothing else (0 = no throttle): the value handed
+// to NewCache comes from Config.ResetThrottle on every path.
+func ruleResetThrottleConfig(c *Ctx) {
+	p := c.P
+	newCache := p.PkgFunc("rescache.NewCache")
+	fReset := p.Field("server.Config.ResetThrottle")
+	if newCache == nil || fReset == nil {
+		c.undecided("rescache.NewCache", "anchor", "-", "not found")
+		return
+	}
+	n := 0
+	for _, fn := range p.Repo {
+		if !inScopePkgs(fn, "server") {
+			continue
+		}
+		for _, call := range callsIn(fn) {
+			if calleeFunc(call.Common()) != newCache {
+				continue
+			}
+			// the int argument named resetThrottle: by the callee's parameter name, else position 2
+			idx := 2
+			if sf := call.Common().StaticCallee(); sf != nil {
+				for i, prm := range sf.Params {
+					if strings.Contains(strings.ToLower(prm.Name()), "reset") {
+						idx = i
+					}
+				}
+			}
+			args := call.Common().Args
+			if idx >= len(args) {
+				continue
+			}
+			n++
+			c.inst(1)
+			fs := map[*types.Var]bool{}
+			var walk func(v ssa.Value, d int)
+			seen := map[ssa.Value]bool{}
+			other := false
+			walk = func(v ssa.Value, d int) {
+				v = stripConv(v)
+				if d > 8 || v == nil || seen[v] {
+					return
+				}
+				seen[v] = true
+				if f, _ := fieldLoad(v); f != nil {
+					fs[f] = true
+					return
+				}
+				switch x := v.(type) {
+				case *ssa.Phi:
+					for _, e := range x.Edges {
+						walk(e, d+1)
+					}
+				case *ssa.UnOp:
+					if al, ok := x.X.(*ssa.Alloc); ok && x.Op == token.MUL && al.Referrers() != nil {
+						for _, r := range *al.Referrers() {
+							if st, ok := r.(*ssa.Store); ok && st.Addr == ssa.Value(al) {
+								walk(st.Val, d+1)
+							}
+						}
+						return
+					}
+					other = true
+				case *ssa.Const:
+				default:
+					other = true
+				}
+			}
+			walk(args[idx], 0)
+			bad := ""
+			for f := range fs {
+				if f != fReset {
+					bad = "the reset throttle's limit may come from Config." + f.Name()
+				}
+			}
+			if !fs[fReset] {
+				bad = "the reset throttle's limit does not come from Config.ResetThrottle"
+			}
+			_ = other
+			c.check(bad == "", fnName(fn), "the reset throttle is limited by the configured resetThrottle only (0: nothing is delayed)", p.InstrPos(call), "argument comes from Config.ResetThrottle", bad+": with resetThrottle 0 the requests of a reset are delayed all the same")
+		}
+	}
+	if n == 0 {
+		c.viol("rescache.NewCache", "the reset throttle is limited by the configured resetThrottle only", "-", "no call of NewCache found: anchor lost")
+	}
+}
+
+// PROV/action-segment (C14, C05): the method of an HTTP call is ONE segment of the
+// path: what PathToRIDAction returns as action is a segment cut out at '/' and
+// unescaped on its own — it is not cut out of the joined (dotted, already
+// unescaped) resource id, where an encoded dot of the last segment has become a
+// separator.
+func ruleActionSegment(c *Ctx) {
+	p := c.P
+	fn := p.Fn("server.PathToRIDAction")
+	if fn == nil {
+		c.undecided("server.PathToRIDAction", "anchor", "-", "not found")
+		return
+	}
+	n := 0
+	for _, in := range instrsOf(fn) {
+		r, ok := in.(*ssa.Return)
+		if !ok || len(r.Results) != 2 {
+			continue
+		}
+		if k, isC := constString(r.Results[1]); isC && k == "" {
+			continue
+		}
+		n++
+		c.inst(1)
+		joined := false
+		seen := map[ssa.Value]bool{}
+		var walk func(v ssa.Value, d int)
+		walk = func(v ssa.Value, d int) {
+			v = stripConv(v)
+			if d > 10 || v == nil || seen[v] {
+				return
+			}
+			seen[v] = true
+			switch x := v.(type) {
+			case *ssa.Slice:
+				walk(x.X, d+1)
+			case *ssa.Phi:
+				for _, e := range x.Edges {
+					walk(e, d+1)
+				}
+			case *ssa.Extract:
+				walk(x.Tuple, d+1)
+			case *ssa.UnOp:
+				if x.Op != token.MUL {
+					return
+				}
+				if al, ok := x.X.(*ssa.Alloc); ok && al.Referrers() != nil {
+					for _, r2 := range *al.Referrers() {
+						if st, ok := r2.(*ssa.Store); ok && st.Addr == ssa.Value(al) {
+							walk(st.Val, d+1)
+						}
+					}
+					return
+				}
+				if ia, ok := x.X.(*ssa.IndexAddr); ok {
+					_ = ia // an element of the split path: a segment
+				}
+			case *ssa.Call:
+				m := calleeFunc(&x.Call)
+				if m == nil {
+					return
+				}
+				if m.Pkg() != nil && m.Pkg().Path() == "strings" && m.Name() == "Join" {
+					joined = true
+					return
+				}
+				if sf := x.Call.StaticCallee(); sf != nil && p.isRepoFn(sf) {
+					// a repository function that returns a joined id (PathToRID)
+					for _, in2 := range instrsOf(sf) {
+						if r2, ok := in2.(*ssa.Return); ok {
+							for _, rv := range r2.Results {
+								walk(rv, d+1)
+							}
+						}
+					}
+					return
+				}
+				// PathUnescape(x), TrimX(x): what went in
+				for _, a := range x.Call.Args {
+					if bt, ok := a.Type().Underlying().(*types.Basic); ok && bt.Info()&types.IsString != 0 {
+						walk(a, d+1)
+					}
+				}
+			case *ssa.BinOp:
+				walk(x.X, d+1)
+				walk(x.Y, d+1)
+			}
+		}
+		walk(r.Results[1], 0)
+		c.check(!joined, fnName(fn), "the method of an HTTP call is one path segment, unescaped on its own", p.InstrPos(r), "the returned action does not derive from the joined resource id",
+			"the action is cut out of the joined, already unescaped resource id: an encoded dot in the last path segment becomes a separator — the request is access-checked and forwarded on a subject the path does not name")
+	}
+	if n == 0 {
+		c.note("PathToRIDAction returns no action")
+	}
+}
+
+// WHO/transient-subscription (C05, C06): a subscription object made for one
+// request on a resource the connection is not subscribed to (a call, an HTTP
+// call) is private to that request. Only the connection's table (wsConn.subs,
+// filled by subscribe) holds subscriptions across requests: token events,
+// reaccess events and resets re-validate what is in that table. A transient one
+// kept anywhere else keeps a cached verdict that no trigger reaches.
+func ruleTransientSubscription(c *Ctx) {
+	p := c.P
+	newSub := p.PkgFunc("server.NewSubscription")
+	registrar := p.Fn("(*server.wsConn).subscribe")
+	if newSub == nil {
+		c.undecided("server.NewSubscription", "anchor", "-", "not found")
+		return
+	}
+	inRegistrar := map[*ssa.Function]bool{}
+	if registrar != nil {
+		for _, g := range p.withNewHelpers(registrar) {
+			inRegistrar[g] = true
+		}
+	}
+	n := 0
+	for _, fn := range p.Repo {
+		if !inScopePkgs(fn, "server") || inRegistrar[fn] {
+			continue
+		}
+		for _, call := range callsIn(fn) {
+			cv, ok := call.(*ssa.Call)
+			if !ok || calleeFunc(&cv.Call) != newSub {
+				continue
+			}
+			n++
+			c.inst(1)
+			bad := ""
+			seen := map[ssa.Value]bool{}
+			var follow func(v ssa.Value, d int)
+			follow = func(v ssa.Value, d int) {
+				if d > 5 || v == nil || seen[v] || v.Referrers() == nil {
+					return
+				}
+				seen[v] = true
+				for _, r := range *v.Referrers() {
+					switch x := r.(type) {
+					case *ssa.MapUpdate:
+						if x.Value == v {
+							bad = "the subscription made for one request is put into a map (" + p.InstrPos(x) + ")"
+						}
+					case *ssa.Store:
+						if x.Val != v {
+							continue
+						}
+						if _, isFA := x.Addr.(*ssa.FieldAddr); isFA {
+							bad = "the subscription made for one request is stored in a member (" + p.InstrPos(x) + ")"
+						}
+						if al, ok := x.Addr.(*ssa.Alloc); ok {
+							for _, r2 := range *al.Referrers() {
+								if ld, ok := r2.(*ssa.UnOp); ok && ld.Op == token.MUL {
+									follow(ld, d+1)
+								}
+							}
+						}
+					case *ssa.Phi:
+						follow(x, d+1)
+					}
+				}
+			}
+			follow(cv, 0)
+			c.check(bad == "", fnName(fn), "a subscription made for one request is private to that request", p.InstrPos(cv), "not stored in any map or member",
+				bad+": it outlives the request outside the connection's subscription table, where no token event, reaccess event or reset re-validates its cached verdict")
+		}
+	}
+	if n == 0 {
+		c.note("no transient subscriptions")
+	}
+}
+
+// DOM/new-takes-subscription (C08): the answer to a `new` request that names a
+// resource goes through handleResourceResult — which takes the direct
+// subscription the client is told about — on every path, whatever protocol
+// version the connection speaks.
+func ruleNewTakesSubscription(c *Ctx) {
+	p := c.P
+	fn := p.Fn("(*server.wsConn).NewResource")
+	hrr := p.Method("server.wsConn.handleResourceResult")
+	if fn == nil || hrr == nil {
+		c.undecided("(*server.wsConn).NewResource", "anchor", "-", "not found")
+		return
+	}
+	for _, g := range WithClosures(fn) {
+		if g.Parent() == nil || len(g.Params) < 3 {
+			continue
+		}
+		var errP, ridP *ssa.Parameter
+		for _, prm := range g.Params {
+			if isErrorType(prm.Type()) {
+				errP = prm
+			} else if bt, ok := prm.Type().Underlying().(*types.Basic); ok && bt.Kind() == types.String {
+				ridP = prm
+			}
+		}
+		if errP == nil || ridP == nil {
+			continue
+		}
+		sp := &Spec{InlineHelpers: true}
+		sp.Classify = func(t *Tracer, fr *Frame, in ssa.Instruction) []Ev {
+			if _, ok := isCallTo(in, hrr); ok {
+				return []Ev{{Kind: "resource-result", Stop: true}}
+			}
+			return nil
+		}
+		sp.Branch = func(t *Tracer, fr *Frame, i *ssa.If, dir bool) []Ev {
+			if x, nn, ok := nilTest(i, dir); ok && t.Resolve(fr, x).V == ssa.Value(errP) {
+				if nn {
+					return []Ev{{Kind: "failed"}}
+				}
+				return []Ev{{Kind: "succeeded"}}
+			}
+			if b, ok := i.Cond.(*ssa.BinOp); ok && (b.Op == token.EQL || b.Op == token.NEQ) {
+				if s, isS := constString(b.Y); isS && s == "" && t.Resolve(fr, b.X).V == ssa.Value(ridP) {
+					if (b.Op == token.NEQ) == dir {
+						return []Ev{{Kind: "has-rid"}}
+					}
+					return []Ev{{Kind: "no-rid"}}
+				}
+			}
+			return nil
+		}
+		pathRule(c, g, "a `new` answer that names a resource takes the direct subscription on every path", sp, 2, func(tr *Tracer, path []Ev) string {
+			if hasKind(path, "failed") || hasKind(path, "no-rid") {
+				return ""
+			}
+			if !hasKind(path, "resource-result") {
+				return "a successful `new` answer with a resource id is replied to without handleResourceResult: the client is told about a resource it has no direct subscription on (a later unsubscribe fails, no events arrive)"
+			}
+			return ""
+		})
 	}
 }
